@@ -12,6 +12,16 @@ import (
 
 // C06: data written by older versions.
 
+// pickV3: a three-section layout as a release wrote it, or (one time in three) the content
+// of one release under another of the three header versions the loader accepts
+func pickV3(r *rand.Rand) string {
+	l := "v3-" + v3Versions[r.Intn(len(v3Versions))]
+	if r.Intn(3) == 0 {
+		l += "@" + []string{"1.0.0", "0.5.8", "0.5.9"}[r.Intn(3)]
+	}
+	return l
+}
+
 var v3Versions = []string{"0.5.0", "0.5.1", "0.5.3", "0.5.4", "0.5.6", "0.5.7", "0.5.8", "0.5.9"}
 
 // legacyBytes builds the stream of `layout` for case c.
@@ -84,7 +94,19 @@ func legacyEv(c *TrieCase, layout string, b []byte, ec, pan string) Ev {
 	if len(b) <= 2048 {
 		e["wire"] = bints(b)
 	}
-	p := strings.Split(layout, ".")
+	// header version override ("v3-0.5.3@0.5.8"): hpatch = 0 for 1.0.0, 8 or 9; -1 = the writer's own
+	e["hpatch"] = -1
+	lay := layout
+	if i := strings.IndexByte(lay, '@'); i >= 0 {
+		hv := lay[i+1:]
+		lay = lay[:i]
+		e["hpatch"] = 0
+		if hv != "1.0.0" {
+			q := strings.Split(hv, ".")
+			e["hpatch"], _ = strconv.Atoi(q[len(q)-1])
+		}
+	}
+	p := strings.Split(lay, ".")
 	last, _ := strconv.Atoi(p[len(p)-1])
 	if strings.HasPrefix(layout, "v3-") {
 		e["patch"] = last
@@ -181,7 +203,7 @@ func genLegacy(t *Tracer, m *Meta, tier string, seed int64) {
 		out := []string{}
 		for i := 0; i < k; i++ {
 			if r.Intn(2) == 0 {
-				out = append(out, "v3-"+v3Versions[r.Intn(len(v3Versions))])
+				out = append(out, pickV3(r))
 			} else {
 				out = append(out, v10[r.Intn(len(v10))])
 			}
@@ -300,7 +322,7 @@ func genLegacy(t *Tracer, m *Meta, tier string, seed int64) {
 			keys = append(keys, fmt.Sprintf("k%04d", i*7))
 		}
 		qs := querySet(r, keys, 60)
-		for _, l := range []string{v10[r.Intn(len(v10))], "v3-" + v3Versions[r.Intn(len(v3Versions))]} {
+		for _, l := range []string{v10[r.Intn(len(v10))], pickV3(r)} {
 			run(keys, l, qs)
 		}
 		m.class("keycount:multiple-of-64-edge")
@@ -322,7 +344,7 @@ func genLegacy(t *Tracer, m *Meta, tier string, seed int64) {
 		if r.Intn(2) == 0 {
 			keys = append([]string{"\x00"}, keys...)
 		}
-		for _, l := range []string{"v3-" + v3Versions[r.Intn(len(v3Versions))], "v3-" + v3Versions[r.Intn(len(v3Versions))]} {
+		for _, l := range []string{pickV3(r), pickV3(r)} {
 			run(keys, l, append(append([]string{}, keys...), common, "x"))
 		}
 		m.class("old-step:" + runClass(L))
@@ -331,6 +353,10 @@ func genLegacy(t *Tracer, m *Meta, tier string, seed int64) {
 	all := append([]string{}, v10...)
 	for _, v := range v3Versions {
 		all = append(all, "v3-"+v)
+		// every children encoding under every header version the loader lists
+		for _, h := range []string{"1.0.0", "0.5.8", "0.5.9"} {
+			all = append(all, "v3-"+v+"@"+h)
+		}
 	}
 	for _, l := range all {
 		for _, keys := range [][]string{{}, {""}, {"a"}, {"", "a"}, {"a", "ab", "abc"}} {
